@@ -2,44 +2,50 @@ import AioslskVerif.Model.Rate
 /-!
 Line protocol for K_C20.
   `new <kbps> <now>`      `Network` with a fresh limiter `create_limiter(kbps)`, clock = now   → `ok`
-  `poll <pid> <dt>`       clock += dt; poller `pid` is stepped (starts a `take_tokens()` call, or wakes from its
-                          sleep if it holds the lock of the object its pending call belongs to)
-                          → `<status> <obj> <pid:grant,…|-> <bucket> <last> <holder|-> <queue,…|->`
+  `poll <pid> <dt>`       clock += dt; poller `pid` is stepped (starts a `take_tokens()` call on the current limiter
+                          object, or wakes from its sleep if it holds the lock of the object its pending call is on)
+                          → `<fate> <pid:grant,…|-> | <obj> ; <obj> ; …`   (every limiter object created so far)
+                          fate: `granted` | `asleep` | `queued` | `none`
+                          obj:  `U <bucket> <last>`  |  `L <bucket> <last> <holder|-> <queue,…|->`
   `set <kbps>`            `set_upload_speed_limit(kbps)`                                      → `ok <bucket> <last>`
 -/
 open AioslskVerif.Rate
 
 def fresh (kbps : Nat) : NObj :=
-  if kbps = 0 then .unlimited
+  if kbps = 0 then .unlimited 0 0
   else .limited { lim := { L := kbps * AioslskVerif.Generated.Rate.bytesPerKb, bucket := 0, last := 0 },
                   holder := none, queue := [] }
 
 def showList (xs : List String) : String := if xs.isEmpty then "-" else String.intercalate "," xs
 
 def showObj : NObj → String
-  | .unlimited => "0 0 - -"
+  | .unlimited b l => s!"U {b} {l}"
   | .limited o =>
-    s!"{o.lim.bucket} {o.lim.last} {match o.holder with | some h => toString h | none => "-"} {showList (o.queue.map toString)}"
+    s!"L {o.lim.bucket} {o.lim.last} {match o.holder with | some h => toString h | none => "-"} {showList (o.queue.map toString)}"
 
 def handle (s : Net) (line : String) : Net × String :=
   match (line.splitOn " ").filter (· ≠ "") with
   | ["new", k, t] =>
     match k.toNat?, t.toNat? with
-    | some k, some t => ({ objs := [fresh k], cur := 0, bound := [], now := t }, "ok")
+    | some k, some t => ({ objs := [fresh k], now := t }, "ok")
     | _, _ => (s, "bad-op")
   | ["poll", p, d] =>
     match p.toNat?, d.toNat? with
     | some p, some d =>
       let r := s.poll p d
-      let o := (r.1.objs[r.2.2.1]?).getD .unlimited
-      let st := match r.2.2.2 with | .blocked => "blocked" | .polled => "polled" | .noObject => "no-object"
-      (r.1, s!"{st} {r.2.2.1} {showList (r.2.1.map fun g => s!"{g.1}:{g.2}")} {showObj o}")
+      let fate :=
+        if r.2.any (·.1 == p) then "granted"
+        else match findPending p r.1.objs 0 with
+          | some (_, true) => "asleep"
+          | some (_, false) => "queued"
+          | none => "none"
+      (r.1, s!"{fate} {showList (r.2.map fun g => s!"{g.1}:{g.2}")} | {String.intercalate " ; " (r.1.objs.map showObj)}")
     | _, _ => (s, "bad-op")
   | ["set", k] =>
     match k.toNat? with
     | some k =>
       let r := s.setLimit k
-      let o := (r.objs[r.cur]?).getD .unlimited
+      let o := (r.objs.getLast?).getD (.unlimited 0 0)
       (r, s!"ok {o.limiter.bucket} {o.limiter.last}")
     | none => (s, "bad-op")
   | _ => (s, "bad-op")
@@ -52,4 +58,4 @@ partial def loop (h : IO.FS.Stream) (s : Net) : IO Unit := do
   loop h s'
 
 def main : IO Unit := do
-  loop (← IO.getStdin) { objs := [.unlimited], cur := 0, bound := [], now := 0 }
+  loop (← IO.getStdin) { objs := [.unlimited 0 0], now := 0 }
